@@ -18,6 +18,7 @@ counters and registered maps of the context it points at), `stack.protected`, an
 Property oracle (independent of the mirror): (1) after a failing cell the observation equals the one before it;
 (2) the surviving cells of the session give, cell by cell, the same results and observations as in the session without
 the failing cells."""
+import json
 import copy
 
 from translator import extract
@@ -651,8 +652,52 @@ def run_raw(cells):
                 v = f'<unrenderable {type(e).__name__}>'
             ptr = f'#{x.ptr}' if x.prim == 'big_map' else ''
             slots.append(f"{micheline_to_michelson(x.as_micheline_expr(), inline=True)}{ptr} {v}")
-        out.append((r.error is not None, ('F' if r.error is not None else 'ok') + ' ; ' + ' | '.join(slots)))
+        head = 'F' if r.error is not None else 'ok'
+        if r.error is None:
+            # what a COMMIT of this cell handed out: the stored value and the lazy diff (ids of big maps and sapling states, actions)
+            c = _find_commit(getattr(r, 'instructions', None))
+            if c is not None:
+                try:
+                    st = json.dumps(c.result.items[1].to_micheline_value(), sort_keys=True)
+                except Exception as e:  # noqa: BLE001
+                    st = f'<unrenderable {type(e).__name__}>'
+                head += f'[commit storage={st} diff={json.dumps(c.lazy_diff, sort_keys=True)}]'.replace(' ; ', ' ;; ')
+        out.append((r.error is not None, head + ' ; ' + ' | '.join(slots)))
     return out
+
+
+def _find_commit(node, depth=0):
+    if node is None or depth > 12:
+        return None
+    if hasattr(node, 'lazy_diff') and hasattr(node, 'result'):
+        return node
+    for child in getattr(node, 'items', None) or []:
+        if not isinstance(child, (list, tuple)):
+            f = _find_commit(child, depth + 1)
+            if f is not None:
+                return f
+    return None
+
+
+def gen_lazy_session(rng):
+    """sessions around COMMIT with the lazy-storage kinds (big_map, sapling_state, both in a pair): ids are handed out in commit order,
+    whatever failed in between"""
+    kind = rng.choice(['big_map', 'sapling', 'sapling', 'pair'])
+    if kind == 'big_map':
+        decl, make = ['parameter unit', 'storage (big_map string nat)'], 'EMPTY_BIG_MAP string nat'
+    elif kind == 'sapling':
+        decl, make = ['parameter unit', 'storage (sapling_state 8)'], 'SAPLING_EMPTY_STATE 8'
+    else:
+        decl, make = ['parameter unit', 'storage (pair (big_map string nat) (sapling_state 8))'], 'SAPLING_EMPTY_STATE 8 ; EMPTY_BIG_MAP string nat ; PAIR'
+    fails = ['DROP ; DROP', 'PUSH string "a" ; FAILWITH', 'UNIT ; SWAP ; DROP ; DROP ; DROP', 'NIL operation ; PAIR ; COMMIT ; DROP', 'DIP { UNIT ; FAILWITH }']
+    cells = list(decl) + [make]
+    for _ in range(rng.randrange(1, 3)):
+        cells.append(rng.choice(fails))
+    cells.append('NIL operation ; PAIR ; COMMIT')
+    if rng.random() < 0.5:
+        cells.append(rng.choice(fails))
+    cells.append(make + ' ; NIL operation ; PAIR ; COMMIT')
+    return cells
 
 
 def raw_oracle(cells, full=None):
@@ -840,7 +885,7 @@ def run(ctx):
                              gl[j] if j < len(gl) else '(missing)', ml[j] if j < len(ml) else '(missing)')
     # ---- raw-text stream: property oracle on the real interpreter only
     n_raw = 700 if quick else 6000
-    raws = [list(c) for c in RAW_REGRESSIONS] + [gen_raw_session(ctx.rng, 7 if quick else 14) for _ in range(n_raw)] + [gen_identity_session(ctx.rng) for _ in range(n_raw // 2)]
+    raws = [list(c) for c in RAW_REGRESSIONS] + [gen_raw_session(ctx.rng, 7 if quick else 14) for _ in range(n_raw)] + [gen_identity_session(ctx.rng) for _ in range(n_raw // 2)] + [gen_lazy_session(ctx.rng) for _ in range(n_raw // 10)]
     shrunk = 0
     for cells in raws:
         full = run_raw(cells)
